@@ -6,7 +6,7 @@ from props.c04 import Bad, _hex, _int, I64, hx, r_bytes, r_value, r_attrs, spec_
 ID = 'C13'
 GEN = ['SpanAttr']
 LEAN_TARGETS = ['OtelVerif.Props.C13']
-THEOREMS_FULL = ['Otel.C13.' + t for t in (
+THEOREMS = ['Otel.C13.' + t for t in (
     'emit_fields', 'emit_attrs_last_write_wins', 'emit_identity_componentwise',
     'correlation_active_span', 'explicit_identity_wins', 'no_active_span_zero_ids', 'active_span_is_top_of_own_stack',
     'null_record_ignored', 'emitted_record_is_gone', 'disabled_logger_emits_nothing', 'disabled_logger_program',
@@ -14,7 +14,6 @@ THEOREMS_FULL = ['Otel.C13.' + t for t in (
     'exported_eq_emitted_partial', 'simple_processor_exports_emitted_values', 'untouched_cells_stay_readable',
     'exported_eq_emitted_witness', 'exported_eq_emitted_uaf_witness', 'eventid_name_partial', 'eventid_name_witness',
     'eventid_without_name')]
-THEOREMS = []
 H = 's_c13'
 HARNESSES = [Harness(H, ['harness/s_c13.cc'], sdk_srcs=sdk_sources('common', 'resource', 'version', 'trace', 'logs'), includes=SDK_INCLUDES)]
 RULE = ('one case = one logging program on a provider with 1-8 processors of mixed kinds (simple / batch flushed on request) and two '
